@@ -122,6 +122,15 @@ def cases():
         {"sims": [{"sid": "Sa", "type": "time-based"}, {"sid": "Sb", "type": "event-based"}, {"sid": "Sc", "type": "time-based"}],
          "conns": [{"src": "Sa", "dst": "Sb", "async": True}, {"src": "Sb", "dst": "Sc", "async": True}], "until": 5},
         _tb(["Sa", "Sc"], 7))
+    # an in-process simulator that keeps ONE reply dictionary and writes the announced output time only when it changes:
+    # two consecutive steps announce the same future time (mosaik must not strip 'time' from the simulator's dictionary)
+    add("reused_reply_with_sticky_time", ["C02", "C04"],
+        {"sims": [{"sid": "Sa", "type": "event-based", "initev": True, "reuse": True}, {"sid": "Sb", "type": "event-based", "reuse": True}],
+         "transport": "local", "conns": [{"src": "Sa", "dst": "Sb", "sa": "e", "da": "ti"}], "until": 6},
+        [["Sa", "step", 1, 1], ["Sa", "step", 2, 2], ["Sa", "step", 3, 3], ["Sa", "step", 4, None],
+         ["Sa", "get_data", 1, {"E0": {"e": "a1"}, "time": 2}], ["Sa", "get_data", 2, {"E0": {"e": "a2"}, "time": 2}],
+         ["Sa", "get_data", 3, {"E0": {"e": "a3"}, "time": 4}], ["Sa", "get_data", 4, {"E0": {"e": "a4"}, "time": 4}],
+         ["Sb", "step", 1, None], ["Sb", "step", 2, None], ["Sb", "step", 3, None]])
     # D9: time-based simulator returning no next step
     add("tb_returns_none", ["C13"],
         {"sims": [{"sid": "Sa", "type": "time-based"}, {"sid": "Sb", "type": "time-based"}],
